@@ -1,9 +1,10 @@
 import OpcuaModel.Base.Loop
-import OpcuaModel.Model.Linear
+import OpcuaModel.Model.LinearApp
 /-
   Driver for C34.  Nodes are (namespace 1, key 0..n-1), initial value Int32 0, no access attributes.
     lin <nNodes> <op>*       → the answers of the attribute service model to the operations in this order
-        op  = r:<node> | w:<node>:<val>          answer = v<val> | ok | <other>
+        op  = r:<node> | w:<node>:<val> | ar:<node> | aw:<node>:<val>     answer = v<val> | ok | <other>
+        (ar / aw: the embedding application reads / replaces the value outside the dispatcher)
     trace <nNodes> <ev>*     → valid | invalid@<index>
         ev  = i:<id>:r:<node> | i:<id>:w:<node>:<val> | d:<id> | p:<id>:v<val> | p:<id>:ok
         (the well-formed traces of the single-dispatcher machine `Linear.mrun`)
@@ -18,6 +19,12 @@ def parseOp (l : List String) : Option Op :=
   | ["r", k] => do pure (.read 1 (← k.toNat?) aValue)
   | ["w", k, v] => do pure (.write 1 (← k.toNat?) aValue (.v tyInt32 (← v.toNat?)))
   | _ => none
+
+def parseXOp (l : List String) : Option XOp :=
+  match l with
+  | ["ar", k] => do pure (.appGetValue 1 (← k.toNat?))
+  | ["aw", k, v] => do pure (.appSetValue 1 (← k.toNat?) (.v tyInt32 (← v.toNat?)))
+  | other => (parseOp other).map .client
 
 def showRes : Res → String
   | .value (.v _ p) => s!"v{p}"
@@ -46,8 +53,8 @@ def runTrace (m : M Server Op Res) (idx : Nat) : List (Ev Op Res) → String
 
 def handle : List String → String
   | "lin" :: n :: ops =>
-    match n.toNat?, ops.mapM (fun s => parseOp (s.splitOn ":")) with
-    | some k, some l => " ".intercalate ((run (mkServer k) l).1.map showRes)
+    match n.toNat?, ops.mapM (fun s => parseXOp (s.splitOn ":")) with
+    | some k, some l => " ".intercalate ((seqRun stepX (mkServer k) l).1.map showRes)
     | _, _ => "bad-op"
   | "trace" :: n :: evs =>
     match n.toNat?, evs.mapM parseEv with
